@@ -547,6 +547,16 @@ Definition check_resume (c : backend * task * nat * list entry * list bool) : bo
    empties: for each named coverage, is it empty *)
 Definition conf_skip (empties : list bool) : bool := existsb (fun e => e) empties.
 
+(* ------------------------------------------------------------------ remove_before given as a time delta
+   seed/config.py before_timestamp_from_options: every unit of weeks/days/hours/minutes/seconds that is configured
+   (missing = 0) goes into ONE timestamp_before call (all units as keyword arguments); util/times.py timestamp_before =
+   mktime((datetime.now() - timedelta(weeks, days, hours, minutes, seconds)).timetuple()): the whole second of now
+   minus the sum of all units.  Times in seconds here. *)
+Definition delta_seconds (w d h m s : Z) : Z := (((w * 7 + d) * 24 + h) * 60 + m) * 60 + s.
+Definition remove_time_of_delta (now w d h m s : Z) : Z := now - delta_seconds w d h m s.
+Definition check_delta (c : Z * (Z * Z * Z * Z * Z) * Z) : bool :=
+  let '(now, (w, d, h, m, s), got) := c in remove_time_of_delta now w d h m s =? got.
+
 (* ------------------------------------------------------------------ names of the per-level database files
    (MBTilesLevelCache): which files does remove_level_tiles_before(level, remove_all=True) unlink *)
 From Coq Require String Ascii Decimal DecimalString DecimalZ.
